@@ -64,7 +64,7 @@ static void ptrSeq() {
     PP* hb = new PP[NB]; PD* hd = new PD[ND]; long mb[NB] = { 0 }, md[ND] = { 0 };
     long created0 = g_created, destroyed0 = g_destroyed; int nops = (int)r.range(20, 300); u64 fp = 0; bool shared = false, released = false;
     for (int o = 0; o < nops; ++o) {
-      int k = (int)r.below(12), i = (int)r.below(NB), j = (int)r.below(NB), di = (int)r.below(ND), dj = (int)r.below(ND); fp = mix(fp, (u64)k * 64 + (u64)i * 8 + (u64)j);
+      int k = (int)r.below(13), i = (int)r.below(NB), j = (int)r.below(NB), di = (int)r.below(ND), dj = (int)r.below(ND); fp = mix(fp, (u64)k * 64 + (u64)i * 8 + (u64)j);
       switch (k) {
       case 0: { setctx("RefCount.Ptr.operator=(raw)"); Pay* n = new Pay; hist.addf("b%d = new Pay(%ld)\n", i, n->id); drop(mb[i]); hb[i] = n; mb[i] = n->id; hold(mb[i]); break; }
       case 1: { setctx("RefCount.Ptr.operator=(raw-derived)"); PayD* n = new PayD; hist.addf("d%d = new PayD(%ld)\n", di, n->id); drop(md[di]); hd[di] = n; md[di] = n->id; hold(md[di]); break; }
@@ -77,6 +77,9 @@ static void ptrSeq() {
       case 8: { setctx("RefCount.Ptr.copy-construct(Ptr<Derived>)"); hist.addf("{ Ptr<Pay> t(d%d); }\n", di); { PP t(hd[di]); hold(md[di]); checkPtr(t, md[di], "temporary converted copy"); drop(md[di]); } break; }
       case 9: { setctx("RefCount.Ptr.operator=(derived,Ptr)"); hist.addf("d%d = d%d\n", di, dj); if (di != dj) drop(md[di]); hd[di] = hd[dj]; if (di != dj) { md[di] = md[dj]; hold(md[di]); } break; }
       case 10: { setctx("RefCount.Ptr.operator=(null,derived)"); hist.addf("d%d = null\n", di); drop(md[di]); hd[di] = (PayD*)0; md[di] = 0; released = true; break; }
+      case 11: { // assign the raw pointer of a payload that is already reference counted (intrusive count): also the handle's own payload
+        if (!mb[j]) break; setctxf("RefCount.Ptr.operator=(raw)/%s", i == j ? "own-payload" : "held-elsewhere"); hist.addf("b%d = b%d.operator->()\n", i, j); Pay* raw = hb[j].operator->();
+        if (i != j) drop(mb[i]); hb[i] = raw; if (i != j) { mb[i] = mb[j]; hold(mb[i]); } cnt("op_assign_raw_of_held"); break; }
       default: { setctx("RefCount.Ptr.operator=="); bool eq = hb[i] == hb[j]; if (eq != (mb[i] == mb[j])) fail("RefCount.Ptr.operator==/result", "b%d == b%d is %d, model %d", i, j, (int)eq, (int)(mb[i] == mb[j])); break; }
       }
       // every handle designates its model payload, which is alive; payloads without handles are gone
@@ -243,13 +246,85 @@ static void conc() {
   }
 }
 
+
+// ------------------------------------------------------------------ mode duel: the last T handles of one payload are released at the same moment
+// Each round: thread 0 creates a payload and hands every thread exactly one handle (its own original is gone), all threads meet at a barrier and then
+// release their handle simultaneously through a randomly chosen release path (destructor, clear, assignment of a counted / a non-counted value, detach by
+// modification, re-pointing). Exactly one of them must free the payload. Oracles: Pay destructor ledger, ASan/LSan, allocation ledger, TSan.
+struct Duel {
+  int T, kind; long rounds; u64 seed; int phase; int arrived; int go;
+  String* s[4]; Variant* v[4]; Xml::Variant* x[4]; PP* p[4]; long pid; long released[4];
+};
+static void barrier(Duel& d, int& sense) {   // sense-reversing barrier on proper atomics (harness synchronisation: phases are ordered, releases inside a phase are not)
+  sense = !sense;
+  if (__atomic_add_fetch(&d.arrived, 1, __ATOMIC_ACQ_REL) == d.T) { __atomic_store_n(&d.arrived, 0, __ATOMIC_RELAXED); __atomic_store_n(&d.go, sense, __ATOMIC_RELEASE); }
+  else { long spins = 0; while (__atomic_load_n(&d.go, __ATOMIC_ACQUIRE) != sense) { if (++spins > 300) { sched_yield(); } } }
+}
+struct DArg { Duel* d; int t; pthread_t th; long paths[8]; };
+static void* duelMain(void* a) {
+  DArg& da = *(DArg*)a; Duel& d = *da.d; int t = da.t; Rng r(d.seed, 905, (u64)t); int sense = 0;
+  for (long round = 0; round < d.rounds; ++round) {
+    if (t == 0) { // hand out exactly T handles
+      if (d.kind == 0) { String o("duel-payload-string-with-some-length", 36); o.append((char)('a' + round % 26)); for (int i = 0; i < d.T; ++i) *d.s[i] = o; }
+      else if (d.kind == 1) { Variant o; if (round & 1) { List<Variant>& l = o.toList(); l.append(Variant((int64)round)); l.append(Variant(String("x", 1))); } else o = String("duel-variant-string-payload", 27); for (int i = 0; i < d.T; ++i) *d.v[i] = o; }
+      else if (d.kind == 2) { Xml::Variant o; if (round & 1) { Xml::Element e; e.line = (int)round; e.type = String("t", 1); o = Xml::Variant(e); } else o = Xml::Variant(String("duel-xml-text", 13)); for (int i = 0; i < d.T; ++i) *d.x[i] = o; }
+      else { Pay* n = new Pay; d.pid = n->id; for (int i = 0; i < d.T; ++i) { *d.p[i] = n; hold(d.pid); } }
+    }
+    barrier(d, sense);
+    int path = (int)r.below(6); ++da.paths[path];
+    switch (d.kind) {
+    case 0: { String*& h = d.s[t];
+      if (path == 0) { delete h; h = new String; } else if (path == 1) h->clear(); else if (path == 2) *h = String("lit");   // non-counted source
+      else if (path == 3) { String own("own-private-heap-string", 23); own.append('!'); *h = own; } else if (path == 4 && kAllowInPlace) h->append('z'); else { String tmp(*h); *h = String("q"); } break; }
+    case 1: { Variant*& h = d.v[t];
+      if (path == 0) { delete h; h = new Variant; } else if (path == 1) h->clear(); else if (path == 2) *h = Variant(7); else if (path == 3) { Variant own(String("own", 3)); *h = own; }
+      else if (path == 4 && kAllowInPlace) { if (h->getType() == Variant::listType) h->toList().append(Variant(1)); else h->toString().append('z'); } else *h = String("plain", 5); break; }
+    case 2: { Xml::Variant*& h = d.x[t];
+      if (path == 0) { delete h; h = new Xml::Variant; } else if (path == 1) h->clear(); else if (path == 2) *h = String("text", 4); else if (path == 3) { Xml::Variant own(String("own", 3)); *h = own; }
+      else if (path == 4 && kAllowInPlace) { if (h->isElement()) h->toElement().line++; else *h = String("t2", 2); } else { Xml::Variant tmp(*h); h->clear(); } break; }
+    default: { PP*& h = d.p[t]; drop(d.pid);
+      if (path == 0) { delete h; h = new PP; } else if (path == 1 || path == 4) *h = (Pay*)0; else if (path == 2) { PP e; *h = e; } else if (path == 3) { PP e; h->swap(e); } else { PP tmp(*h); *h = (Pay*)0; } break; }
+    }
+    barrier(d, sense);
+    if (t == 0 && d.kind == 3) { if (__atomic_load_n(&g_dtor[d.pid], RLX) != 1) fail("RefCount.Ptr/payload-not-released-after-last-handle", "duel: payload destroyed %d time(s) after all %d handles were released concurrently", (int)g_dtor[d.pid], d.T); }
+  }
+  return 0;
+}
+static void duel() {
+  for (long idx = opts.start; idx < opts.start + opts.cases; ++idx) {
+    if (!mine(idx)) continue;
+    beginCase(idx); Rng r(opts.seed, 904, (u64)idx);
+    Duel d; memset((void*)&d, 0, sizeof d); d.T = (int)r.range(2, 4); d.kind = (int)r.below(4); d.rounds = (long)r.range(500, 4000); d.seed = r.next();
+    static const char* kn[] = { "String", "Variant", "Xml.Variant", "RefCount.Ptr" };
+    hist.addf("# duel kind=%s threads=%d rounds=%ld\n", kn[d.kind], d.T, d.rounds); setctxf("duel/%s/concurrent-release-of-last-handles", kn[d.kind]);
+#ifdef VERIF_LEDGER
+    long live0 = verif_ledger_live();
+#endif
+    long created0 = g_created, destroyed0 = g_destroyed;
+    for (int i = 0; i < d.T; ++i) { d.s[i] = new String; d.v[i] = new Variant; d.x[i] = new Xml::Variant; d.p[i] = new PP; }
+    DArg da[4]; memset(da, 0, sizeof da);
+    for (int t = 0; t < d.T; ++t) { da[t].d = &d; da[t].t = t; pthread_create(&da[t].th, 0, duelMain, &da[t]); }
+    for (int t = 0; t < d.T; ++t) pthread_join(da[t].th, 0);
+    for (int i = 0; i < d.T; ++i) { delete d.s[i]; delete d.v[i]; delete d.x[i]; delete d.p[i]; }
+    if (g_created - created0 != g_destroyed - destroyed0) fail("RefCount.Ptr/payload-not-released-after-last-handle", "duel: %ld payloads created, %ld destroyed", g_created - created0, g_destroyed - destroyed0);
+#ifdef VERIF_LEDGER
+    { long leaked = verif_ledger_live() - live0; if (leaked != 0) fail("shared-payload/ledger:not-released", "duel: %ld heap block(s) still live after every handle is gone", leaked); }
+#endif
+    cnt("duel_rounds", d.rounds); cnt("ops", d.rounds * d.T); { char nm[64]; snprintf(nm, sizeof nm, "duel_rounds_%s", kn[d.kind]); cnt(nm, d.rounds); }
+    static const char* pn[] = { "destructor", "clear-or-null", "assign-non-counted", "assign-counted", "detach-by-modification", "copy-then-release" };
+    for (int t = 0; t < d.T; ++t) for (int q = 0; q < 6; ++q) if (da[t].paths[q]) setItem("duel_release_paths", pn[q]);
+    recycleIds();
+    endCase(mix((u64)idx, (u64)d.rounds * 4 + (u64)d.kind), true);
+  }
+}
+
 int main(int argc, char** argv) {
   init(argc, argv, "h_refcount");
   if (opts.probe) {
     if (!strcmp(opts.probe, "RefCount.Ptr.swap/different-payloads")) { setctx("RefCount.Ptr.swap/different-payloads"); { PP a(new Pay), b(new Pay); long ia = a->id, ib = b->id; hold(ia); hold(ib); a.swap(b); drop(ib); a = (Pay*)0; checkPtr(b, ia, "after swap and release of the other handle"); drop(ia); } finish(); return 0; }
     harnessBug("unknown probe %s", opts.probe);
   }
-  if (!strcmp(opts.mode, "ptr-seq")) ptrSeq(); else if (!strcmp(opts.mode, "conc")) conc(); else harnessBug("unknown mode %s", opts.mode);
+  if (!strcmp(opts.mode, "ptr-seq")) ptrSeq(); else if (!strcmp(opts.mode, "conc")) conc(); else if (!strcmp(opts.mode, "duel")) duel(); else harnessBug("unknown mode %s", opts.mode);
   cnt("payloads_created", g_created); cnt("payloads_destroyed", g_destroyed);
 #ifdef VERIF_LEDGER
   cnt("ledger_allocations", verif_ledger_allocs()); cnt("ledger_freed_blocks_poison_verified", verif_ledger_verified());
